@@ -172,15 +172,17 @@ def special_valuations(inputs, polys, seed):
             atoms |= p.all_atoms()
     kinds = {P.atom_by_id(i).key[1] for i in atoms if P.atom_by_id(i).kind == "fn"}
     base = Valuation(inputs, seed + 7)
-    if "isnan" in kinds:
+    for pred, bad in (("isnan", float("nan")), ("isinf", float("inf"))):
+        if pred not in kinds:
+            continue
         for k, inp in enumerate(inputs):
             if inp.kind == "real" and int(np.prod(inp.shape or (1,))) >= 1:
                 v = Valuation(inputs, seed + 7)
                 a = np.array(v.arrays[k], dtype=float, copy=True)
-                a.reshape(-1)[0] = np.nan
+                a.reshape(-1)[0] = bad
                 v.arrays[k] = a
                 nm = inp.name if a.ndim == 0 else inp.name + "[" + ",".join(["0"] * a.ndim) + "]"
-                v.values[nm] = float("nan")
+                v.values[nm] = bad
                 out.append(v)
     if kinds & {"lt", "eq"}:
         names = {}
